@@ -32,7 +32,9 @@ C = {
  "C09": (True, "exploration", "independent on-disk format decoder + bit-wise reference CRC as runtime oracle over all built artifacts",
    "Every artifact of the shared case pool is parsed by a decoder written from the format description only (never the crate's reader): header, footer, node layouts, backward pointers, exact tiling, root last, checksum, decoded map == inserted map.",
    "The 63-entry common-input table is pinned format data; compactness policy is recorded, not judged.", "DESIGN.md#c09"),
- "C10": (False, "exploration", "independent reference encoder for format versions 1-3 + golden files; reader queried against the model", "", "", "DESIGN.md#c10"),
+ "C10": (True, "exploration", "independent reference encoder for format versions 1-3 (self-checked by the independent decoder) + committed golden files; reader queried against the encoded model",
+   "~2400 models x versions {1,2,3} x 2 output distributions/node-form policies, opened in 9 container kinds (Vec, slice, Cow, Box, Arc newtype, mmap, map_data, Map/Set) and put through a full query battery incl. cross-version set operations; 40 golden files; header sweep for the required error classes.",
+   "Inputs both too short and of unsupported version may report either error; encoder output is validated by the decoder before use.", "DESIGN.md#c10"),
  "C11": (True, "fault_enumeration", "event-log monitor on fault-injecting sinks: every write-call index x error kinds / zero-length accept / flush failure, directly and through BufWriter",
    "The sink logs which builder call was in progress when the injected fault happened; that call must return Err(Io) (no panic, no Ok, no other error); sessions that never reach the fault must deliver and flush every byte.",
    "Interrupted is a retry request (C07); behaviour after an I/O error is not judged.", "DESIGN.md#c11"),
@@ -57,8 +59,12 @@ C = {
  "C18": (True, "exploration", "reference language algebra: textbook-constructed reference DFA with exact reachability sets vs the real combinators driven byte by byte",
    "~67k expressions (all leaves incl. every <=2-state component DFA with every sound hint assignment, unary/binary/depth-2/3 compositions) x all short strings + a representative of every reference state: is_match == membership, can_match false only in dead states, will_always_match true only in all-accepting states.",
    "Component hints are sound by construction (the statement's premise); a brute-force third definition cross-checks the oracle.", "DESIGN.md#c18"),
- "C19": (False, "exploration", "subprocess monitor of the real fst binary with seeded delay injection (H4), merge-tree trace checker, ThreadSanitizer and memcheck runs", "", "", "DESIGN.md#c19"),
- "C20": (False, "exploration", "catch_unwind totality monitor in release and overflow-checked builds + Miri (undefined-behaviour interpreter) shards", "", "", "DESIGN.md#c20"),
+ "C19": (True, "exploration", "subprocess monitor of the real fst binary with seeded delay injection (hook H4), offline merge-tree trace checker, model-merge oracle; ThreadSanitizer and valgrind memcheck runs (thorough)",
+   "Hundreds (thorough: thousands) of runs of `fst set|map` over 13 input shapes x batch sizes x fd limits x thread counts x merge modes under seeded delays; exit status, verify(), keys, merged values and byte identity with a sorted build are judged; the hooked trace yields the merge tree, and the evidence reports how many distinct trees / worker assignments were observed (213 quick, ~2000 thorough); thorough adds 200 TSan and 30 memcheck runs.",
+   "Interleavings are sampled, not enumerated; keys need no CSV quoting; a subprocess watchdog is inconclusive.", "DESIGN.md#c19"),
+ "C20": (True, "exploration", "catch_unwind totality monitor in a release and an overflow-checked build + Miri (undefined-behaviour interpreter) over 16 shards; auxiliary non-runtime forbid(unsafe_code) compile gate",
+   "1.3M (thorough 20M) hostile images (boundary header/footer sweep, random strings, truncations/mutations/extensions of valid FSTs) through open + accessors + verify in two build profiles; Miri interprets the same gate plus bounded traversals of mutated FSTs (panic allowed, UB not) and miniature valid-input operations.",
+   "root()/node()/traversals may panic on malformed data; the syntactic 'no unsafe' clause is only covered by the declared auxiliary compile gate; Miri/tool failures are inconclusive.", "DESIGN.md#c20"),
 }
 TODO = ["C02","C03","C04","C05","C06","C07","C08","C10","C11","C12","C13","C14","C15","C16","C17","C18","C19","C20"]
 
@@ -84,7 +90,7 @@ m = {
    "guard": "--cfg burntsushi_fst_verif (rustc cfg flag, passed through RUSTFLAGS)",
    "enable": "RUSTFLAGS='--cfg burntsushi_fst_verif' cargo build --offline (the harness depends on /repo by path, so every check rebuilds the library from the working tree; fst-bin is rebuilt the same way for C19)",
    "baseline_off_cmd": "cd /repo && cargo test --workspace --no-fail-fast --offline",
-   "source_commits": ["551498d", "09028d1", "4662e10"],
+   "source_commits": ["551498d", "09028d1", "4662e10", "1a3ec36", "85523a5"],
    "add_only": True,
  },
  "engines": [
